@@ -15,6 +15,22 @@ REPO = Path(os.environ.get("VERIF_REPO", "/repo")).resolve()
 GUARD = "IBL_NEUROPIXEL_VERIF"
 
 
+def configure_logging(seed):
+    """Logging configuration is part of the environment a run varies: for two runs out of three everything is disabled
+    (quiet, fast), for the third the records are formatted and handled (to a sink), with the level at INFO - code whose
+    behaviour depends on whether a logger is enabled sees both."""
+    import logging
+    if int(seed) % 3 == 0:
+        logging.disable(logging.NOTSET)
+        sink = open(os.devnull, "w")
+        logging.basicConfig(stream=sink, level=logging.INFO, force=True)
+        for name in ("ibllib", "mtscomp", "ibldsp"):
+            logging.getLogger(name).setLevel(logging.INFO)
+        return True
+    logging.disable(logging.CRITICAL)
+    return False
+
+
 def setup_imports():
     """Make `import spikeglx` etc. resolve to $VERIF_REPO/src (the live working tree)."""
     src = str(REPO / "src")
